@@ -190,11 +190,14 @@ func (c *connection) onProcess(onConnect OnConnect, onRequest OnRequest) (proces
 				return
 			}
 			// cannot use recover() here, since we don't want to break the panic stack
-			c.unlock(processing)
 			if c.IsActive() {
+				c.unlock(processing)
 				c.Close()
 			} else {
-				c.closeCallback(false, false)
+				// already closed: whoever closed it failed to get the processing lock and
+				// relies on this task to run the callbacks, so keep the lock (never unlock
+				// it again) or a later Close() would run every callback a second time.
+				c.closeCallback(false, c.isCloseBy(user))
 			}
 		}()
 		// trigger onConnect first
